@@ -154,7 +154,12 @@ pub trait InlinesContext: Copy {
 pub fn is_ref_url(url: &str) -> bool {
     // a destination with a scheme (https:, mailto:, file:, zotero: ...) or an absolute path
     // names something outside of the library
-    !(has_scheme(url) || url.starts_with('/'))
+    // ... and so does one that names no file: nothing at all ("[todo]()"), a directory
+    // ("assets/"), or just the way to one ("..", "./")
+    !(has_scheme(url)
+        || url.starts_with('/')
+        || url.ends_with('/')
+        || url.chars().all(|c| c == '.' || c == '/'))
 }
 
 // an address with a scheme; what holds white space is no address (a note called "Re: budget")
